@@ -176,6 +176,9 @@ func lifecycleScenarioOpt(name string, n *spec, place int, menu func(h *H, c cal
 		for r := 1; r < runs; r++ {
 			// the SAME node objects are run again: nothing may carry over
 			h.nextRun()
+			if h.reinstall != nil {
+				h.reinstall()
+			}
 			h.ctx = ctxBackground()
 			a, err := flyt.Run(h.ctx, node, h.store)
 			core.Logf("run %d returned (%q, %v)", r+1, a, err)
@@ -246,6 +249,9 @@ func genC01(tier string) []Scenario {
 			sp := &spec{id: "n", kind: kind, n: 2, fb: true, replaced: true}
 			name := fmt.Sprintf("lifecycle callbacks-replaced kind=%s N=2 fallback=true place=%s", kindNames[kind], placeName(place))
 			out = append(out, lifecycleScenario(name, sp, place, fullMenu(prepVals[:2])))
+			if place == placeDirect && kind != kFuncR && kind != kFuncA {
+				out = append(out, lifecycleScenarioRuns(name+" runs=3(callbacks re-set, in the other style, between the runs)", sp, place, fullMenu(prepVals[:1]), 3))
+			}
 		}
 	}
 	return out
